@@ -461,23 +461,40 @@ fn emit_highlight(w: &mut World, out: &mut impl Write, id: &str, root: usize, va
     let mut err = None;
     {
         let cfgs_ref = &cfgs;
-        match w.highlighter.highlight(&cfgs[root], src, None, None, move |name| lang_index(name).map(|i| &cfgs_ref[i])) {
-            Ok(it) => {
-                for e in it {
-                    match e {
-                        Ok(e) => evs.push(e),
-                        Err(e) => {
-                            err = Some(format!("{e}"));
+        let hl = &mut w.highlighter;
+        let res = panic::catch_unwind(panic::AssertUnwindSafe(|| {
+            let mut evs = Vec::new();
+            let mut err = None;
+            match hl.highlight(&cfgs_ref[root], src, None, None, move |name| lang_index(name).map(|i| &cfgs_ref[i])) {
+                Ok(it) => {
+                    for e in it {
+                        match e {
+                            Ok(e) => evs.push(e),
+                            Err(e) => {
+                                err = Some(format!("{e}"));
+                                break;
+                            }
+                        }
+                        if evs.len() > 200_000 {
+                            err = Some("too-many-events".into());
                             break;
                         }
                     }
-                    if evs.len() > 200_000 {
-                        err = Some("too-many-events".into());
-                        break;
-                    }
                 }
+                Err(e) => err = Some(format!("{e}")),
             }
-            Err(e) => err = Some(format!("{e}")),
+            (evs, err)
+        }));
+        match res {
+            Ok((e, r)) => {
+                evs = e;
+                err = r;
+            }
+            Err(_) => {
+                // the real code panicked: report it with this input, continue with a fresh highlighter
+                err = Some("panic".into());
+                w.highlighter = Highlighter::new();
+            }
         }
     }
     writeln!(out, "spec {id} H {} {variant} {names_mode} {crs} {}", LANGS[root], hx(src)).unwrap();
@@ -1276,6 +1293,37 @@ fn emit_capi_errors(w: &mut World, out: &mut impl Write) -> usize {
     let big: Vec<u8> = "x = x + 1;\n".repeat(300).into_bytes();
     let (rc, _, _) = api.highlight("scope.stmt", &big, Some(&flag));
     capi_err(out, "E-cancelled", "cancellation_flag_set", rc, 2);
+    // a document on which the parse is not cancelled but the event loop is (the flag is then seen by
+    // `render`, the other Timeout branch of the C API): found by running the Rust API with the same flag
+    {
+        let mut cfg = HighlightConfiguration::new(w.langs[0].language.clone(), "stmt", &w.langs[0].highlights, &w.langs[0].inj[0], &w.langs[0].locals).expect("config");
+        cfg.configure(&names);
+        let mut found = None;
+        for k in 1..80usize {
+            let doc: Vec<u8> = "x = x + 1;\n".repeat(k).into_bytes();
+            let mut hl = Highlighter::new();
+            let outcome = match hl.highlight(&cfg, &doc, None, Some(&flag), |_| None) {
+                Ok(mut it) => {
+                    if it.any(|e| e.is_err()) {
+                        1
+                    } else {
+                        0
+                    }
+                }
+                Err(_) => 2,
+            };
+            if outcome == 1 {
+                found = Some(doc);
+                break;
+            }
+        }
+        if let Some(doc) = found {
+            let (rc, _, _) = api.highlight("scope.stmt", &doc, Some(&flag));
+            capi_err(out, "E-cancel-in-render", "cancelled_during_render", rc, 2);
+        } else {
+            capi_err(out, "E-cancel-in-render", "cancelled_during_render_not_reachable", 0, 0);
+        }
+    }
     let zero = std::sync::atomic::AtomicUsize::new(0);
     let (rc, _, _) = api.highlight("scope.stmt", &big, Some(&zero));
     capi_err(out, "E-not-cancelled", "cancellation_flag_clear", rc, 0);
@@ -1298,7 +1346,7 @@ fn emit_capi_errors(w: &mut World, out: &mut impl Write) -> usize {
     capi_err(out, "E-bad-lang-name", "invalid_language_name", add(b"(number) @s.number", None, &scope, &bad_name), 7);
     capi_err(out, "E-bad-query-utf8", "invalid_utf8_query", add(&[0x28, 0xff, 0x29], None, &scope, &lname), 4);
     capi_err(out, "E-null-regex-ok", "null_regex_ok", add(b"(number) @s.number", None, &scope, &lname), 0);
-    13 + codes.len()
+    14 + codes.len()
 }
 
 /// One document through the C API; the html must be what the Rust API renders for the same
@@ -1557,6 +1605,13 @@ fn gen_host(gg: &gen::GrammarGen, rng: &mut Rng, depth: usize) -> String {
             5 if depth > 0 => s.push_str(&format!("$tmpl`{}` ", gen_tmpl(gg, rng, depth - 1).replace('`', "'"))),
             6 => s.push_str(&format!("$stmt`{}` ", gen_stmt_locals(rng, 1).replace('`', "'"))),
             7 if depth > 0 => s.push_str(&format!("$host`{}` ", gen_host(gg, rng, depth - 1).replace('`', "'"))),
+            8 if rng.chance(1, 2) => {
+                if rng.chance(1, 2) {
+                    s.push_str(&format!("two($a`{w} = 1;` $b`{} = 2;`) ", rng.pick(&WORDS)))
+                } else {
+                    s.push_str(&format!("me($x`let {w} = 1 {w}` {w}) "))
+                }
+            }
             _ => s.push_str(&format!("$nolang`{w}` {w}\n")),
         }
     }
@@ -1689,7 +1744,17 @@ fn run_spec(w: &mut World, out: &mut impl Write, id: &str, fields: &[&str]) -> b
 
 fn main() {
     limit_resources();
-    panic::set_hook(Box::new(|_| {}));
+    // A panic while a highlight case is running in the real code is reported with that case's spec
+    // (exit code 4, like the watchdog's HANG); panics of the renderer on synthetic ill-formed streams
+    // (no case registered) are expected and caught by `real_render`.
+    panic::set_hook(Box::new(|_| {
+        if let Ok(g) = CURRENT.try_lock() {
+            if let Some((_, spec)) = &*g {
+                eprintln!("PANIC {spec}");
+                std::process::exit(4);
+            }
+        }
+    }));
     start_watchdog();
     let args: Vec<String> = std::env::args().collect();
     let out_path = args.get(1).expect("usage: c17 <ops-file> [--spec file]").clone();
@@ -1779,7 +1844,7 @@ fn main() {
     }
     // 4. real highlighting
     let stmt_gg = gen::GrammarGen::new(&zoo::load("stmt").unwrap().grammar_json, zoo::read_zoo_file("stmt", "samples.json").as_deref());
-    let nh = if thorough { 4000 } else { 420 };
+    let nh = if thorough { 4000 } else { 480 };
     let mut with_inj = 0usize;
     for i in 0..nh {
         let root = i % 3;
